@@ -4,13 +4,13 @@ CONSTANTS
   TempT = "tt"
   Keys <- K1
   Vals <- V5
-  MaxRows = 1
+  MaxRows = 2
   Script = FALSE
-  WithEnv = TRUE
+  WithEnv = FALSE
 INIT Init
 NEXT Next
 VIEW ViewNoOut
-CONSTRAINT Depth6
+CONSTRAINT Depth5
 INVARIANTS DirtyLoaded EncHeld
 PROPERTIES FailStutters UntouchedUnwritten HeldStable CommitAllOrNothing
 CHECK_DEADLOCK FALSE
